@@ -744,7 +744,7 @@ def lab_run(ctx, s, prefix, cli_bin, runner_bin):
     lab = os.path.join(vt.VERIF, 'lab', 'lab.sh')
     n = s['n']
     vt.sh([lab, 'down', prefix, str(n)])
-    p = vt.sh([lab, 'up', prefix, str(n)] + [str(x) for x in s['silent']], env=dict(os.environ, LAB_REJECT=str(s.get('reject') or 0)))
+    p = vt.sh([lab, 'up', prefix, str(n)] + [str(x) for x in s['silent']], env=dict(os.environ, LAB_REJECT=str(s.get('reject') or 0), LAB_ASYM='1' if s.get('asym') else '0'))
     lis = None
     try:
         if p.returncode != 0:
@@ -798,6 +798,11 @@ def lab_run(ctx, s, prefix, cli_bin, runner_bin):
         t0 = _t.time()
         q = subprocess.run(['timeout', '60'] + cmd, stdout=subprocess.PIPE, stderr=subprocess.PIPE, text=True, errors='replace')
         elapsed_ms = int((_t.time() - t0) * 1000)
+        # 'repeat': the same invocation again and again; the first one that fails or loses a hop is the outcome
+        for _ in range(int(s.get('repeat') or 1) - 1):
+            if q.returncode != 0 or '"ip_address": ""' in q.stdout or '"reachable": false' in q.stdout:
+                break
+            q = subprocess.run(['timeout', '60'] + cmd, stdout=subprocess.PIPE, stderr=subprocess.PIPE, text=True, errors='replace')
         if noise:
             noise.kill()
         out = {'ok': False, 'err': q.stderr[-300:], 'runs': [], 'rtts_us': []}
